@@ -94,6 +94,8 @@ def well_formed(args):
         return False
     if any(list(m[1:]) != sorted(m[1:]) for m in args):
         return False
+    if monos != sorted(monos):      # kingdon's monomial order: variables left to right, a proper prefix first
+        return False
     return True
 
 
@@ -484,11 +486,12 @@ POLY_REPS = {
     "a": [[1, "a"]], "b": [[1, "b"]], "2a+3b": [[2, "a"], [3, "b"]], "-2a+c": [[-2, "a"], [1, "c"]],
     "ab": [[1, "a", "b"]], "1": [[1]], "0": [], "zero": [[0]], "3": [[3]], "a^2": [[1, "a", "a"]],
     "a+ab+b": [[1, "a"], [1, "a", "b"], [1, "b"]], "-a-ab": [[-1, "a"], [-1, "a", "b"]], "5+a": [[5], [1, "a"]],
-    "c+d": [[1, "c"], [1, "d"]], "-3b": [[-3, "b"]],
+    "c+d": [[1, "c"], [1, "d"]], "-3b": [[-3, "b"]], "c": [[1, "c"]],
 }
 POLY_PAIRS = [("a", "b"), ("b", "a"), ("2a+3b", "-2a+c"), ("a+ab+b", "-a-ab"), ("a", "a"), ("2a+3b", "-3b"), ("ab", "a^2"),
               ("5+a", "3"), ("a", "0"), ("0", "a"), ("zero", "b"), ("1", "a+ab+b"), ("c+d", "a+ab+b"), ("a+ab+b", "c+d"),
-              ("-2a+c", "2a+3b"), ("a^2", "a^2"), ("5+a", "5+a"), ("-a-ab", "a+ab+b")]
+              ("-2a+c", "2a+3b"), ("a^2", "a^2"), ("5+a", "5+a"), ("-a-ab", "a+ab+b"), ("c", "5+a"), ("5+a", "c"), ("b", "a+ab+b"),
+              ("c+d", "5+a")]
 
 
 @rule("C17.polynomial-arith", props=["C17"], min_instances=60, mutants=[
@@ -496,6 +499,7 @@ POLY_PAIRS = [("a", "b"), ("b", "a"), ("2a+3b", "-2a+c"), ("a+ab+b", "-a-ab"), (
     ("merge advances only one cursor on equal monomials", ("polynomial", "                ai += 1\n                bi += 1\n        return self.__class__(res)", "                ai += 1\n        return self.__class__(res)")),
     ("product drops a factor of the right monomial", ("polynomial", "                    if isinstance(eb, str): C.append(eb)\n                    else: C[0] *= eb\n                    j += 1", "                    if isinstance(eb, str) and eb not in C: C.append(eb)\n                    else: C[0] *= eb if not isinstance(eb, str) else 1\n                    j += 1")),
     ("negation keeps the sign of later terms", ("polynomial", "return self.__class__([[-monomial[0], *monomial[1:]] for monomial in self.args])", "return self.__class__([[-monomial[0], *monomial[1:]] for monomial in self.args[:1]] + self.args[1:])")),
+    ("single-monomial fast path appends terms unsorted", ("polynomial", "        res = Polynomial([])\n        al = len(self)", "        if len(self) == 1 and len(other) > 1:\n            A = self[0]\n            return Polynomial([[A[0] * B[0], *sorted([*A[1:], *B[1:]])] for B in other.args])\n        res = Polynomial([])\n        al = len(self)")),
     ("monomial order ignores length", ("polynomial", "    return la - lb", "    return 0")),
 ])
 def polynomial_arith(ctx):
